@@ -10,6 +10,9 @@ claimed = {
  "C11": ("5.C11", "Unfragment on every list of 1..3/1..4 cues (any order, overlaps, 2/3 text classes incl. same text spread over two runs) with symbolic times: ordered, no same-text cues touch/overlap, same texts on screen at a fresh symbolic instant, isolated cues untouched; inverse law Unfragment(Fragment(L,f)) restores L for 1..2/1..3 cues, f symbolic, 3 windows."),
  "C12": ("5.C12", "Order on 0..3/0..4 cues and Merge on |A|<=2/3,|B|<=2 with symbolic starts (ties included): permutation, non-decreasing, stable, A before B; region/style union over ids {x,y}/{x,y,z} with every subset split and every map iteration order; receiver without constructor."),
  "C13": ("5.C13", "Optimize over every acyclic reference graph with 2/3 styles (arbitrary parent links), 1/2 regions, 1/2 cues, symbolic pairwise-distinct identifiers (every id comparison is a solver decision), every map iteration order: kept = exactly reachable, references resolve, cues untouched, idempotent, empty list untouched. RemoveStyling over all nil/non-nil styling combinations of the first cue."),
+ "C15": ("5.C15", "ApplyLinearCorrection with the float64 steps modelled as relaxed reals: for 5/9 concrete reference quadruples (NTSC/PAL ratios 25/23.976, 23.976/25, 30/29.97, 1, 1/2, 2, 3/2, ...) and every pair of boundaries t1<=t2 in [0,24h] at 1 ns: both images within 1 us of the exact affine map (checked in exact integer arithmetic with the slope in lowest terms), order preserved, length scaled, text/identity untouched; for a fully symbolic quadruple (a2-a1>=1ms, slope in [1/2,2], values in [0,24h]; nonlinear real arithmetic, z3 5.1) a1 lands on d1 and a2 on d2 within 1 us; list level: every cue's both boundaries corrected."),
+ "C19": ("5.C19", "Each of SRT/WebVTT/SSA/STL written twice with independent symbolic map-iteration orders (every order of up to 2/3 styles and 1/2 regions, all 4^n attribute-subset patterns) gives equal bytes; TTML: equal value handed to the XML encoder; no writer modifies its input (deep comparison with a pre-image, 5 writers, symbolic cue boundary); STL dates come from the metadata when present and from the injectable clock only otherwise."),
+ "C20": ("5.C20", "Write-freedom on shared state instead of interleavings: after package initialisation every object reachable from a package-level variable of astisub (except Now) is frozen; on every feasible path of 3 readers, 4 writers (+STL write/read), and 8 transformations no store or map insert targets a frozen object. A hit is confirmed natively by running the call on 4 goroutines under the race detector. Schedules themselves are not explored."),
  "C16": ("5.C16", "Every instant i in [0,100h) at 1 ns resolution (mathematical-integer encoding, mixed-radix decomposition of the divisions, relaxed-real model of the float64 steps, z3 5.1): SRT/WebVTT/TTML/SSA rendering has the grammar's shape, the same format's reader returns floor(i) at ms resp. cs, a second write is identical, rendering is monotone; STL 4-byte and 8-digit timecodes for every d in [0,24h) at 25 and 30 fps: fields, frame < rate, reader within 1 ns of the frame instant, second write identical."),
  "C17": ("5.C17", "Line scanner: for every document of 1..4/1..5 bytes over {CR,LF,other} and every delivery schedule (any chunking, empty reads, data together with EOF) the real bufio.Scanner (executed from SSA) with astisub's split function yields the one-read token sequence; prefix-stability and progress lemmas of the split function for 1..6/1..8 symbolic bytes; readNBytes for every conformant delivery of 1..3/1..4-byte blocks; ReadFromSTL under 9 split points x EOF modes."),
  "C18": ("5.C18", "A non-EOF read fault after every byte offset k of a two-cue SRT/WebVTT/SSA document (symbolic digits) and at 8 offsets of an STL file yields a non-nil error; a 65537-byte line yields an error (real bufio.Scanner buffer logic from SSA); a fault at every Write call of each of the 4 non-XML writers yields an error and a fault-free write hands over exactly the document; Open/Write report failing os.Open/os.Create (stubbed)."),
@@ -18,7 +21,7 @@ claimed = {
 wip = "check not built yet in this session (work in progress, see DESIGN.md section 9)"
 na = {
  "C01": wip, "C02": wip, "C03": wip, "C04": wip, "C05": wip, "C06": wip, "C07": wip, "C08": wip,
- "C15": wip, "C19": wip, "C20": wip,
+ 
 }
 # allow overrides from a side file edited by later steps
 exec(open(os.path.join(os.path.dirname(__file__), "manifest_table.py")).read()) if os.path.exists(os.path.join(os.path.dirname(__file__), "manifest_table.py")) else None
